@@ -592,7 +592,7 @@ def build_cases(ctx, H):
         dsz = re.search(r"dict=(\d+)", o)
         dsz = int(dsz.group(1)) if dsz else 1 << 20
         for exact in (1, 0):
-            C.sweep("microd:%d:%d:%d:%d" % (len(comp), used, exact, dsz), comp, "a", level_for(len(comp), used), used, "F", "gen-micro")
+            C.sweep("microd:%d:%d:%d:%d" % (len(comp), used, exact, dsz), comp, "a" if exact else "o", level_for(len(comp), used), used, "F", "gen-micro")
         m = mutate(rng, comp, rng.choice(hows))
         C.sweep("microd:%d:%d:1:%d" % (len(m), used, dsz), m, "a", level_for(len(m), used), used, "F", "gen-micro-mutant")
     # raw noise into every decoder
